@@ -163,7 +163,7 @@ def sany(module):
 # Batched trace validation
 # ---------------------------------------------------------------------------------------------
 
-def validate_traces(module, traces, shards=16, timeout=900, cfg_text=None, extra_env=None):
+def validate_traces(module, traces, shards=16, timeout=900, cfg_text=None, extra_env=None, weight=None):
     """Judge `traces` (list of JSON-able dicts, each with a unique 'tid') with trace specification `module`.
 
     The trace spec reads JsonDeserialize(IOEnv.TRACE_FILE) (a JSON list), is run with one worker per shard, and prints
@@ -179,8 +179,20 @@ def validate_traces(module, traces, shards=16, timeout=900, cfg_text=None, extra
         cfg_text = "INIT TInit\nNEXT TNext\nCHECK_DEADLOCK FALSE\n"
     try:
         files = []
+        if weight is not None:
+            # longest-processing-time-first: spread the expensive traces evenly over the shards
+            loads = [0.0] * shards
+            parts = [[] for _ in range(shards)]
+            for tr in sorted(traces, key=weight, reverse=True):
+                i = loads.index(min(loads))
+                parts[i].append(tr)
+                loads[i] += weight(tr)
+        else:
+            parts = [traces[s::shards] for s in range(shards)]
         for s in range(shards):
-            part = traces[s::shards]
+            part = parts[s]
+            if not part:
+                continue
             fp = os.path.join(tmp, "shard%d.json" % s)
             with open(fp, "w") as f:
                 json.dump(part, f)
